@@ -32,6 +32,9 @@ type c19Scenario struct {
 	// fragment handshake messages
 	CPMTU int `json:"cpmtu,omitempty"`
 	SPMTU int `json:"spmtu,omitempty"`
+	// PastClock: Config.Time of both sides is pinned to a date years before the wall clock (the client
+	// does not verify certificates in these scenarios); timers and the dwell period are not its business
+	PastClock bool `json:"pastclock,omitempty"`
 }
 
 // c19SmallPMTU is a path MTU that fragments the hellos and still carries the harness's application messages whole.
@@ -107,6 +110,11 @@ func c19Exec(c c19Case) c19Out {
 		snaps = append(snaps, max)
 	}
 	ccfg.PMTU, scfg.PMTU = c.Sc.CPMTU, c.Sc.SPMTU
+	if c.Sc.PastClock {
+		past := func() time.Time { return time.Date(2019, 6, 1, 0, 0, 0, 0, time.UTC) }
+		ccfg.Time, scfg.Time = past, past
+		ccfg.InsecureSkipVerify = true
+	}
 	if c.Sc.Resumed {
 		r := vfRunPair(ccfg, scfg, vfPairOpt{})
 		if r.CErr != nil || r.SErr != nil {
@@ -336,7 +344,7 @@ func c19Scenarios() []c19Scenario {
 }
 
 func TestVF_C19(t *testing.T) {
-	rec := vfRec("C19", "C19-faults", "fault patterns of up to k lost / duplicated / delayed datagrams (k=1 exhaustive, k=2 sampled in the quick tier and exhaustive in the thorough tier, k=3 sampled) addressed as (sender, n-th datagram incl. retransmissions), both tie-break orders, over {full,resumed} x 4 suites x client auth x Read/ReadFrom API, small path MTUs that fragment the hellos, plus runs of 1..3 consecutive losses under configured timeouts (1 s/1 s, 1 s/2 s, 10 s/60 s, 250 ms/60 s), under virtual time (the library's dwell period is aged with the simulated clock); oracle: both handshakes complete within the sum of the first k+1 waits of the schedule (initial timeout doubling, capped at the maximum), application data then flows both ways, no expiry without a fault, views agree; non-trivial = at least one fault applied before completion; distinct = (scenario, pattern, tie-break)")
+	rec := vfRec("C19", "C19-faults", "fault patterns of up to k lost / duplicated / delayed datagrams (k=1 exhaustive, k=2 sampled in the quick tier and exhaustive in the thorough tier, k=3 sampled) addressed as (sender, n-th datagram incl. retransmissions), both tie-break orders, over {full,resumed} x 4 suites x client auth x Read/ReadFrom API, small path MTUs that fragment the hellos, Config.Time pinned years before the wall clock, plus runs of 1..3 consecutive losses under configured timeouts (1 s/1 s, 1 s/2 s, 10 s/60 s, 250 ms/60 s), under virtual time (the library's dwell period is aged with the simulated clock); oracle: both handshakes complete within the sum of the first k+1 waits of the schedule (initial timeout doubling, capped at the maximum), application data then flows both ways, no expiry without a fault, views agree; non-trivial = at least one fault applied before completion; distinct = (scenario, pattern, tie-break)")
 	scs := c19Scenarios()
 	kinds := []string{"drop", "dup", "delay", "delay2"}
 	idx := 0
@@ -443,6 +451,28 @@ func TestVF_C19(t *testing.T) {
 			}
 		}
 	}
+	// Config.Time pinned to a date in the past: each datagram of the handshake lost once
+	for _, resumed := range []bool{false, true} {
+		sc := c19Scenario{Suite: ECC_SM4_GCM_SM3, Resumed: resumed, PastClock: true}
+		idx++
+		if vfMine(idx) {
+			report(c19Case{Sc: sc})
+		}
+		for dir := 0; dir < 2; dir++ {
+			for nth := 0; nth < 5; nth++ {
+				for _, k := range []string{"drop", "delay"} {
+					idx++
+					if vfMine(idx) {
+						report(c19Case{Sc: sc, Faults: []vfFault{{Kind: k, Dir: dir, Nth: nth}}, Tie: idx % 2})
+					}
+				}
+			}
+			idx++
+			if vfMine(idx) {
+				report(c19Case{Sc: sc, Faults: []vfFault{{Kind: "drop", Dir: dir, Nth: -1, Count: 1}}, Tie: idx % 2})
+			}
+		}
+	}
 	// small path MTUs (fragmented hellos): every single fault on the first datagrams of each side
 	for _, suite := range []uint16{ECC_SM4_GCM_SM3, ECC_SM4_CBC_SM3} {
 		pm := c19SmallPMTU(suite)
@@ -478,6 +508,9 @@ func TestVF_C19(t *testing.T) {
 			if rapid.Bool().Draw(t, "spmtu") {
 				sc.SPMTU = pm
 			}
+		}
+		if !sc.ClientAuth && rapid.IntRange(0, 4).Draw(t, "pastclock") == 0 {
+			sc.PastClock = true
 		}
 		n := rapid.IntRange(1, 3).Draw(t, "k")
 		var fs []vfFault
